@@ -1073,7 +1073,7 @@ def r_fold(text, ctx):
     # a receiver chain broken over several lines (`create\n.foreign_key\n.ref_columns\n.iter()\n.fold(`) is one expression
     text = re.sub(r"((?:[A-Za-z_#][A-Za-z0-9_#]*\s*\.\s*)+)iter\(\)\s*\.\s*(fold|for_each)\(", lambda mm: re.sub(r"\s+", "", mm.group(1)) + "iter()." + mm.group(2) + "(", text)
     while True:
-        m = re.search(r"([A-Za-z_][A-Za-z0-9_\.#]*)\s*\.iter\(\)\s*\.(fold\((?:true|first), \|(first), ([a-z_]+)\| \{|for_each\(\|([^|]+)\| \{)", text)
+        m = re.search(r"([A-Za-z_][A-Za-z0-9_\.#]*)\s*\.iter\(\)\s*\.(fold\((?:true|first), \|(first), ([a-z_]+|\([a-z_, ]+\))\| \{|for_each\(\|([^|]+)\| \{)", text)
         if not m:
             break
         coll = m.group(1)
@@ -1127,6 +1127,10 @@ def r_fold(text, ctx):
                     raise Unsupported(ctx.key + ": R-fold: nested fold whose outer flag is used other than in the leading `if !first`")
                 b2 = re.sub(r"!first\b", "!first_o", head, count=1) + b2[inner.start():]
             b2 = b2.rstrip() + "\n            %s = %s;\n        " % (flag, tailx)
+            if var.startswith("("):
+                # a destructuring closure parameter `|first, (a, b)|`: the item is bound first, then destructured (same bindings)
+                b2 = "\n            let %s = item%d_;" % (var, n) + b2
+                var = "item%d_" % n
             new = "let mut %s = %s;\n        for %s in %s: %s.iter() {%s}" % (flag, init, var, itn, coll, b2)
         else:
             new = "for %s in %s: %s.iter() {%s}" % (var.strip(), itn, coll, body)
